@@ -1,6 +1,8 @@
 import Generated.CoreAssign
 import Model.Assign
 
+set_option linter.unusedSimpArgs false
+set_option linter.unusedVariables false
 namespace Proofs.BridgeAssign
 open Model.Assign
 
